@@ -173,6 +173,11 @@ fn body_pool() -> Vec<(&'static str, Argv)> {
         ("SET-nx-n", av(&["SET", "n", "only-if-absent", "NX"])),
         ("SET-xx-n", av(&["SET", "n", "only-if-present", "XX"])),
         ("SET-get-wrongtype", av(&["SET", "l", "v", "GET"])),
+        // commands without a routing key: inside EXEC they still concern every shard
+        ("DBSIZE", av(&["DBSIZE"])),
+        ("KEYS-exact", av(&["KEYS", "h"])),
+        ("FLUSHDB", av(&["FLUSHDB"])),
+        ("EXISTS-many", av(&["EXISTS", "s", "l", "h", "z", "t", "n"])),
     ]
 }
 
